@@ -243,7 +243,15 @@ def rule_accessor(ctx):
 
 THOROUGH_FS = ["pt", "none", "serde"]
 
+def rule_qm(ctx):
+    """'key=value pairs joined by & in ascending key order': Display walks the qualifier list as stored, so the order printed is
+    the map's representation invariant (C11): keys strictly ascending by the comparator that agrees with the printed keys."""
+    from . import C11
+    C11.invariant_obligations(ctx, ctx.facts(), rule="QM-INV")
+
+
 RULES = [
+    ("QM-INV", rule_qm, 40),
     ("SHAPE", rule_shape, 15),
     ("TYPE-GUARD", rule_typeguard, 3),
     ("ESCSET", rule_escset, 5 * 128 + 1),
